@@ -7,4 +7,4 @@ From IronCalc Require Import Base.Prelude Eval.NumOps Eval.Value Eval.Coerce Eva
 Extraction Language OCaml.
 Extraction "model_c05.ml"
   NumOps.mkNumOps Store.evaluate_in Store.store_of Store.value_at Store.fuel_for Store.no_nonfinite_b
-  Store.type_number Store.oof Denote.values_consistent_b Denote.values_consistent_in_b Denote.denote Eval.eval Eval.result_of.
+  Store.type_number Store.api_set_number Store.import_cell Store.oof Denote.values_consistent_b Denote.values_consistent_in_b Denote.denote Eval.eval Eval.result_of.
